@@ -701,9 +701,14 @@ HandleElementResult QXmppOutgoingClient::handleElement(const QDomElement &nodeRe
 
     const QString ns = nodeRecv.namespaceURI();
 
+    // with TLS required, nothing received over the unencrypted link is dispatched (and hence answered)
+    const bool tlsOk = socket()->isEncrypted() || configuration().streamSecurityMode() != QXmppConfiguration::TLSRequired;
+
     // give client opportunity to handle stanza
     bool handled = false;
-    Q_EMIT elementReceived(nodeRecv, handled);
+    if (tlsOk) {
+        Q_EMIT elementReceived(nodeRecv, handled);
+    }
     if (handled) {
         return Accepted;
     }
@@ -720,7 +725,7 @@ HandleElementResult QXmppOutgoingClient::handleElement(const QDomElement &nodeRe
         }
         return Accepted;
     } else if (ns == ns_client) {
-        return handleStanza(nodeRecv) ? Accepted : Rejected;
+        return tlsOk && handleStanza(nodeRecv) ? Accepted : Rejected;
     }
     return Rejected;
 }
